@@ -10,6 +10,7 @@ import (
 	"strings"
 
 	"github.com/osteele/liquid"
+	"github.com/osteele/liquid/render"
 	"verifmc/explore"
 )
 
@@ -119,7 +120,8 @@ func c11Bodies() []c11Body {
 		}
 		return out
 	}
-	bodies := []c11Body{{"plain", func(t string) string { return t }, func(items []string) string { return strings.Join(plain(items), "") }}}
+	bodies := []c11Body{{"plain", func(t string) string { return t }, func(items []string) string { return strings.Join(plain(items), "") }},
+		{"via-application-tag", func(t string) string { return "{% looptrace %}" }, func(items []string) string { return strings.Join(plain(items), "") }}}
 	for k := 1; k <= 3; k++ {
 		k := k
 		bodies = append(bodies, c11Body{fmt.Sprintf("break@%d", k),
@@ -881,6 +883,18 @@ func init() {
 		},
 		Setup: func(string) {
 			c11.eng = liquid.NewEngine()
+			// an application tag that reads the loop state through the render context: the body's TEXT mentions neither forloop nor x
+			c11.eng.RegisterTag("looptrace", func(ctx render.Context) (string, error) {
+				var parts []string
+				for _, e := range []string{"x", "forloop.index", "forloop.index0", "forloop.rindex", "forloop.rindex0", "forloop.length", "forloop.first", "forloop.last"} {
+					v, err := ctx.EvaluateString(e)
+					if err != nil {
+						return "", err
+					}
+					parts = append(parts, fmt.Sprint(v))
+				}
+				return "[" + parts[0] + ":" + strings.Join(parts[1:], ",") + "]", nil
+			})
 			if _, err := c11.eng.ParseTemplateAndCache([]byte(c11Trace), c11TraceFile, 1); err != nil {
 				panic(explore.BaselineFailure{Msg: "harness: " + err.Error()})
 			}
